@@ -831,6 +831,41 @@ func (e *Env) call(x *ast.CallExpr) *Val {
 			return e.errorf("visited: no map range loop %d", n)
 		}
 		return &Val{T: "(select " + fx.heapGet(e.st, name, cs) + " " + k.T + ")", Ty: boolT}
+	case "pureres":
+		// pureres("Owner.funcVar", i, args...): i-th result of a pure function-valued variable (funcfield ... pure)
+		lit, ok := x.Args[0].(*ast.BasicLit)
+		if !ok {
+			return e.errorf("pureres: first argument must be a string literal")
+		}
+		key, _ := strconv.Unquote(lit.Value)
+		idxLit, ok := x.Args[1].(*ast.BasicLit)
+		if !ok {
+			return e.errorf("pureres: second argument must be an integer literal")
+		}
+		ri, _ := strconv.Atoi(idxLit.Value)
+		ct := fx.eng.specs.Contracts["funcfield:"+key]
+		if ct == nil || !ct.Pure {
+			return e.errorf("pureres: no pure funcfield contract %s", key)
+		}
+		sig := fx.eng.funcFieldSig(key)
+		if sig == nil {
+			return e.errorf("pureres: cannot find the variable %s", key)
+		}
+		var args []*Val
+		for i := 2; i < len(x.Args); i++ {
+			args = append(args, argv(i))
+		}
+		var rt types.Type = sig.Results()
+		if sig.Results().Len() == 1 {
+			rt = sig.Results().At(0).Type()
+		}
+		fx.pureInline = true
+		v := fx.pureCall(e.st, "pc$"+sanitize(key), args, rt)
+		fx.pureInline = false
+		if len(v.Tup) > ri {
+			return v.Tup[ri]
+		}
+		return v
 	case "upd":
 		a, k, v := argv(0), argv(1), argv(2)
 		kt, vt := k.T, v.T
